@@ -227,6 +227,11 @@ def check(src, kind):
         raw = _sas_lexer_rust._lex_program_from_str(src)
     except BaseException as ex:  # PanicException derives from BaseException
         count("exceptions")
+        if type(ex).__name__ == "PanicException":
+            # a panic comes from Rust code; in the binding that is the linked, published lexer
+            # crate (lib.rs itself has no panicking path) - outside this property by its quantifier
+            count("panics_outside_property")
+            return
         if kind == 1:
             finding("C20.must-return|%s" % type(ex).__name__, "well-formed program did not return: %s" % str(ex)[:200], src)
         return
@@ -389,6 +394,48 @@ while pos + 5 <= len(data):
         k = (n_inputs * 7919) % (len(src) + 1)
         check(src[:k] + "\udc80" + src[k:], 0)
         count("lone_surrogate_inputs")
+
+
+def history_probe(src):
+    """Two different strings of equal UTF-8 length, the first one freed before the second is
+    created (CPython then usually reuses its address): the result for the second must describe the
+    second. Any caching keyed on object identity / length shows up as a contract violation."""
+    if " " not in src or not src.isascii() or len(src) > 400:
+        return
+    variant = src.replace(" ", "\n", 1)
+    t = (src + "x")[:-1]
+    try:
+        _sas_lexer_rust._lex_program_from_str(t)
+    except BaseException:
+        pass
+    del t
+    u = (variant + "x")[:-1]
+    count("history_probes")
+    check(u, 0)
+
+
+# second pass over a sample of the inputs: mojibake (UTF-8 bytes read as Latin-1: every char is
+# <= U+00FF, so CPython stores one byte per char and that buffer happens to be valid UTF-8) and
+# history probes
+pos = 0
+k = 0
+while pos + 5 <= len(data):
+    (ln,) = struct.unpack_from("<I", data, pos)
+    src = data[pos + 5:pos + 5 + ln].decode("utf-8")
+    pos += 5 + ln
+    k += 1
+    if ln > 1500:
+        continue
+    if k % 3 == 0 and not src.isascii():
+        try:
+            m = src.encode("utf-8").decode("latin-1")
+        except UnicodeError:
+            m = None
+        if m is not None:
+            count("mojibake_inputs")
+            check(m, 0)
+    if k % 4 == 0:
+        history_probe(src)
 
 json.dump({
     "counters": counters,
